@@ -107,7 +107,7 @@ def bounded(tier, seed):
             continue
         admit = ADMIT.get(kind, lambda fr: True)
         if kind == "MemoryCache":
-            qs = allq[:: (11 if tier == "quick" else 2)]
+            qs = allq[:: (13 if tier == "quick" else 2)]
         else:
             k = 11 if tier == "quick" else 200
             qs = rnd.sample(allq, min(k, len(allq)))
